@@ -125,6 +125,16 @@ def _drive(case, doc):
         o["file_collect"] = _load(lambda: ruleset(True), coll_errors)
     else:
         o["file_strict"], o["file_collect"] = o["coll_strict"], o["coll_collect"]
+    # ... and merged from one collection per document, handed to merge() as a GENERATOR (any iterable is accepted)
+    if "global" in case["kind"] or "repeat" in case["kind"]:  # (action documents act on the documents of THEIR collection)
+        o["merge_strict"], o["merge_collect"] = o["coll_strict"], o["coll_collect"]
+    else:
+        def merged(collect):
+            parts = (SigmaCollection.from_dicts([copy.deepcopy(d)], collect_errors=collect, resolve_references=False) for d in docs)
+            return SigmaCollection.merge(parts, collect_errors=collect, resolve_references=resolve)
+
+        o["merge_strict"] = _load(lambda: merged(False), lambda x: [])
+        o["merge_collect"] = _load(lambda: merged(True), coll_errors)
     if case["kind"] in ("rule", "corr", "filter"):
         cls = {"rule": SigmaRule, "corr": SigmaCorrelationRule, "filter": SigmaFilter}[case["kind"]]
         o["direct_strict"] = _load(lambda: cls.from_dict(copy.deepcopy(doc)), lambda x: [])
